@@ -10,8 +10,9 @@ peg::parser! {
 
         rule _() = quiet!{ [' ' | '\t' | '\n' | '\r']* }
 
+        // Whole word: `for_x`, `payload2` are identifiers, not keywords
         rule ci(s: &'static str) -> ()
-            = kw:$(['a'..='z' | 'A'..='Z']+) {?
+            = kw:$(['a'..='z' | 'A'..='Z']+) !['0'..='9' | '_' | '-'] {?
                 if kw.eq_ignore_ascii_case(s) { Ok(()) }
                 else { Err("expected keyword") }
             }
